@@ -57,6 +57,37 @@ CLAUSE_KEY = {
 
 # ------------------------------------------------------------------ plan
 
+def _descend(rng, prob):
+    """continue the search from a child of the tree (and possibly from a grandchild) as the new root"""
+    if rng.random() >= prob:
+        return None
+    return [{"pick": rng.randrange(1000), "extra": rng.choice([1, 2, 5, 12])} for _ in range(rng.choice([1, 1, 2]))]
+
+
+def plan_sessions(ctx):
+    """ONE engine object searching several positions in a row: boards of different sizes (smaller
+    first, larger first, interleaved), different reserve configurations.  Every tree is dumped,
+    replayed in the model and put to TreeInv like any other."""
+    rng = ctx.rng
+    orders = [[3, 5], [5, 3], [3, 4, 3], [4, 6, 4], [6, 3, 5], [3, 3, 4], [5, 4, 5, 3]]
+    if ctx.thorough:
+        orders = orders * 4
+    out = []
+    for sizes in orders:
+        evaluator = rng.choice(["uniform", "random", "adversarial", "uniform"])
+        eseed = rng.randrange(1 << 30)
+        sess = []
+        for size in sizes:
+            pos = rng.choice(td.start_positions(rng, size, 3, custom_prob=0.3))
+            n = rng.choice([1, 2, 4, 9] if size <= 4 else [1, 2, 5])
+            c = td.make_case(rng, size, pos, evaluator, n, rng.random() < 0.3, n + 2 if rng.random() < 0.3 else None, _descend(rng, 0.2))
+            c["eseed"] = eseed
+            c["family"] = "one-engine:" + "-".join(str(x) for x in sizes)
+            sess.append(c)
+        out.append(sess)
+    return out
+
+
 def plan(ctx, scale=1.0):
     """list of cases (dicts), deterministic in ctx.rng"""
     rng = ctx.rng
@@ -82,14 +113,14 @@ def plan(ctx, scale=1.0):
             reuse = None
             if rng.random() < 0.35:
                 reuse = n + rng.choice([1, 2, 5, max(1, n // 2)])
-            cases.append(td.make_case(rng, size, pos, evaluator, n, rng.random() < 0.4, reuse))
+            cases.append(td.make_case(rng, size, pos, evaluator, n, rng.random() < 0.4, reuse, _descend(rng, 0.25)))
     # searches rooted one to three plies before the end of a game, every kind of ending
     for size, per_class in ({3: 8, 4: 5, 5: 2} if ctx.thorough else {3: 3, 4: 2}).items():
         per_class = max(1, int(per_class * scale))
         for cls, pos in td.endgame_positions(rng, size, per_class):
             n = rng.choice([4, 12, 30, 60] if size == 3 else [8, 25, 60])
             reuse = n + rng.choice([3, 10]) if rng.random() < 0.3 else None
-            c = td.make_case(rng, size, pos, rng.choice(["uniform", "random", "adversarial", "uniform"]), n, rng.random() < 0.3, reuse)
+            c = td.make_case(rng, size, pos, rng.choice(["uniform", "random", "adversarial", "uniform"]), n, rng.random() < 0.45, reuse, _descend(rng, 0.6))
             c["family"] = "endgame:" + cls
             cases.append(c)
     for size, n in big:
@@ -111,6 +142,7 @@ class Finding:
         self.what = what
         self.phase = phase
         self.path = path
+        self.session = None
 
 
 def check_run(res, ctx=None):
@@ -153,7 +185,7 @@ def check_run(res, ctx=None):
             ctx.count("drawn-games-visited", draws)
             if term:
                 ctx.count("trees-with-finished-games")
-            ctx.count("phase:%s" % ("fresh" if k == 0 else "reused"))
+            ctx.count("phase:%s" % {"fresh": "fresh", "same": "reused-same-root", "child": "reused-child-as-root"}[ph.get("how", "fresh" if k == 0 else "same")])
             ctx.count("nodes", nodes)
             ctx.count("expanded", exp)
             ctx.count("depth>=5" if depth >= 5 else "depth<5")
@@ -203,8 +235,8 @@ def _short(x):
 
 
 def case_label(case):
-    return "size=%d evaluator=%s eseed=%d budget=%d reuse=%s noise=%s mix=%s sampler=%s sseed=%d C=%s pos=[%s]" % (
-        case["size"], case["evaluator"], case["eseed"], case["budget"], case["reuse"], case["noise_alpha"], case["mix"],
+    return "size=%d evaluator=%s eseed=%d budget=%d reuse=%s descend=%s noise=%s mix=%s sampler=%s sseed=%d C=%s pos=[%s]" % (
+        case["size"], case["evaluator"], case["eseed"], case["budget"], case["reuse"], case.get("descend"), case["noise_alpha"], case["mix"],
         case["sampler"], case["sseed"], case["C"], case["pos"],
     )
 
@@ -216,15 +248,27 @@ def tie(ctx):
     divs = []
     ctx.extra.setdefault("c08_findings", [])
     store = []
-    for case in plan(ctx):
+    sessions = {}
+    work = []
+    for k, sess in enumerate(plan_sessions(ctx)):
+        sessions[k] = sess
+        shared = {}
+        for case in sess:
+            work.append((case, k, shared))
+    work += [(case, None, None) for case in plan(ctx)]
+    tie.sessions = sessions
+    for case, sid, shared in work:
         ctx.count("evaluator:" + case["evaluator"])
         ctx.count("size:%d" % case["size"])
         if case.get("family"):
             ctx.count("start:" + case["family"])
         ctx.count("noise:%s" % ("on" if case["noise_alpha"] is not None else "off"))
         ctx.count("sampler:" + case["sampler"])
-        res = td.run_case(case)
+        res = td.run_case(case, shared=shared)
         findings, trees = check_run(res, ctx)
+        if sid is not None:
+            for f in findings:
+                f.session = sid
         for t in trees[:1]:
             ctx.sample({"case": case_label(case), "root_visits": t["sims"], "root_value": str(t["value"]), "children": len(t["children"] or [])})
         for f in findings:
@@ -254,6 +298,12 @@ def _shrink(case, key):
             return False
         return any(f.key == key and f.kind != "aborted" for f in fs)
 
+    if best.get("descend"):
+        for dd in (None, best["descend"][:1]):
+            c = dict(best, descend=dd)
+            if c != best and fails(c):
+                best = c
+                break
     if best.get("reuse"):
         c = dict(best, reuse=None)
         if fails(c):
@@ -297,6 +347,17 @@ def search(ctx, divergences, broken):
             continue
         lst.sort(key=lambda cf: (cf[0]["budget"] + (cf[0]["reuse"] or 0), cf[0]["size"]))
         case, f = lst[0]
+        if f.session is not None:
+            sess = getattr(tie, "sessions", {}).get(f.session, [case])
+            vs.append(
+                Violation(
+                    key,
+                    "%s — search %d of %d made by ONE engine object (boards %s); this search: %s (%d such findings in this run)"
+                    % (f.what, sess.index(case) + 1 if case in sess else 0, len(sess), [c["size"] for c in sess], case_label(case), len(lst)),
+                    {"session": sess, "key": key},
+                )
+            )
+            continue
         small = _shrink(case, key)
         what = f.what
         if small != case:
@@ -325,6 +386,12 @@ def search(ctx, divergences, broken):
 
 def replay(ctx, data):
     r = data.get("replay", data)
+    if "session" in r:
+        out, shared = [], {}
+        for case in r["session"]:
+            findings, _ = check_run(td.run_case(case, shared=shared), ctx)
+            out += [Violation(f.key, "%s — %s" % (f.what, case_label(case)), r) for f in findings if f.kind != "aborted"]
+        return out
     case = r["case"]
     res = td.run_case(case)
     findings, _ = check_run(res, ctx)
